@@ -329,8 +329,26 @@ class Stats:
         self.counters[k] = self.counters.get(k, 0) + n
 
 
-def bisimulate(A, B, nm=None, depth=3, max_states=30, max_inst=24, corr=None, case_sensitive=False):
-    """Returns (Stats, corr). Raises Mismatch on the first behavioural difference, Unsupported if the oracle cannot judge."""
+def _decimal_values(s):
+    """Number of fluent values of a state that are rationals with a finite, non-dyadic decimal expansion (3/10, 0.35, ...)."""
+    n = 0
+    for v in s.values():
+        if isinstance(v, Fraction) and v.denominator % 5 == 0:
+            d = v.denominator
+            for p in (2, 5):
+                while d % p == 0:
+                    d //= p
+            n += d == 1
+    return n
+
+
+def bisimulate(A, B, nm=None, depth=3, max_states=30, max_inst=24, corr=None, case_sensitive=False, walks=0, walk_len=0):
+    """Returns (Stats, corr). Raises Mismatch on the first behavioural difference, Unsupported if the oracle cannot judge.
+    Breadth-first product up to `depth` / `max_states`, then `walks` lock-step walks of up to `walk_len` state-changing steps
+    from the initial state pair (deterministic choice), judged exactly like the breadth-first part: they reach state pairs in
+    which effects have accumulated over several steps (numeric values are compared exactly, as Fractions)."""
+    import random
+
     c = corr or Corr(A, B, nm, case_sensitive)
     st = Stats()
     VA, VB = c.VA, c.VB
@@ -372,14 +390,15 @@ def bisimulate(A, B, nm=None, depth=3, max_states=30, max_inst=24, corr=None, ca
     d0 = c.state_diff(sa0, sb0)
     if d0:
         raise Mismatch("initial-state:" + _diff_class(d0), f"initial states differ (fluent: (first, second, kind)): {d0}", diff=d0)
-    seen = {seqsem.freeze(sa0)}
-    queue = deque([(sa0, sb0, 0, [])])
-    n = 0
-    while queue and n < max_states:
-        sa, sb, dep, path = queue.popleft()
-        n += 1
+
+    def judge_state(sa, sb, path):
+        """Judges goal status, every ground instance of every transition pair, one-sided actions and durations in one state
+        pair; returns the judged applicable instance pairs as [(successor of A, successor of B, step, changed?)]."""
+        out = []
         st.pairs += 1
         st.reached.append((sa, sb))
+        if _decimal_values(sa):
+            st.count("state-pairs-with-non-dyadic-decimal-values")
         ga, gb = seqsem.goal_status(A, sa), seqsem.goal_status(B, sb)
         if ga is None or gb is None:
             st.count("dontcare:goal")
@@ -434,11 +453,7 @@ def bisimulate(A, B, nm=None, depth=3, max_states=30, max_inst=24, corr=None, ca
                     st.nontrivial.append((seqsem.freeze(sa), str(ka), tuple(map(str, args))))
                 else:
                     st.count("both-applicable-noop")
-                if dep < depth:
-                    k = seqsem.freeze(ra.state)
-                    if k not in seen:
-                        seen.add(k)
-                        queue.append((ra.state, rb.state, dep + 1, path + [step]))
+                out.append((ra.state, rb.state, step, bool(ra.info.get("changed"))))
         for (side, an), trs in missing.items():
             P, s_ = (A, sa) if side == "first" else (B, sb)
             for args in _instances(P, trs[0], max_inst):
@@ -460,7 +475,40 @@ def bisimulate(A, B, nm=None, depth=3, max_states=30, max_inst=24, corr=None, ca
                 a = VA.durations[an][4]
                 for args in _instances(A, a, max_inst):
                     _compare_duration(c, an, sa, sb, args, c.args(a.parameters, args), st, path)
+        return out
+
+    seen = {seqsem.freeze(sa0)}
+    queue = deque([(sa0, sb0, 0, [])])
+    n = 0
+    first = None
+    while queue and n < max_states:
+        sa, sb, dep, path = queue.popleft()
+        n += 1
+        succs = judge_state(sa, sb, path)
+        if first is None:
+            first = succs
+        if dep < depth:
+            for nsa, nsb, step, _ in succs:
+                k = seqsem.freeze(nsa)
+                if k not in seen:
+                    seen.add(k)
+                    queue.append((nsa, nsb, dep + 1, path + [step]))
     # actions of A that have no counterpart in B must never have been applicable: checked above through the empty transition
+    for w in range(walks):
+        rnd = random.Random(w)
+        succs, path, on_path = first or [], [], {seqsem.freeze(sa0)}
+        for i in range(walk_len):
+            # prefer steps that change the state and lead to a state not yet on this walk (accumulation, not oscillation)
+            fresh = [x for x in succs if x[3] and seqsem.freeze(x[0]) not in on_path]
+            if not fresh:
+                break
+            sa, sb, step, _ = fresh[rnd.randrange(len(fresh))]
+            path = path + [step]
+            on_path.add(seqsem.freeze(sa))
+            st.count("walk-steps")
+            if i + 1 > depth:
+                st.count("walk-steps-beyond-depth")
+            succs = judge_state(sa, sb, path)
     return st, c
 
 
